@@ -139,6 +139,9 @@ def run_in_module(doc, stmts, enabled, idx, tmp):
     # (tabs are expanded first: prefixing a tab-indented line with four blanks would change its column)
     body = '\n'.join('    ' + l if l else l for l in doc.expandtabs().split('\n'))
     src = MODULE_TMPL % (gendoc.PRELUDE, globs, body)
+    if idx % 2 == 0:
+        # the module has a __future__ import of its own (one that changes nothing here): the doctest inherits it, and keeps everything else
+        src = 'from __future__ import generator_stop\n' + src
     path = os.path.join(tmp, 'xdverif_c01_m%d.py' % idx)
     open(path, 'w').write(src)
     with warnings.catch_warnings():
@@ -286,7 +289,7 @@ def _worker2(cases, tmp):
             if bind != pbind:
                 diff = sorted(set(bind.items()) ^ set(pbind.items()))[:6]
                 problems.append('final bindings differ: %r' % (diff,))
-        if any(st.kind in ('readback', 'annotated_def') for st in stmts) and not doc.startswith('Summary'):
+        if any(st.kind in ('readback', 'annotated_def', 'await_expr', 'async_await', 'async_for', 'async_with') for st in stmts) and not doc.startswith('Summary'):
             try:
                 mp, _src = run_in_module(doc, stmts, enabled, abs(hash(doc)) % 10 ** 9, tmp)
                 problems += mp
